@@ -122,7 +122,7 @@ void rd::case_expr() {
   const int maxv = wide ? rnd(12, 45) : rnd(1, 7);      // variable ids in [0, maxv)
   const int steps = wide ? rnd(10, 30) : rnd(6, 16);
   hx::count(wide ? "expr.cases_wide" : "expr.cases_narrow");
-  std::string lastop;
+  poison().clear();
 
   auto check_all = [&](const std::string& op) -> bool {
     const std::string opb = op.substr(0, op.find('@')), opc = op.find('@') == std::string::npos ? std::string() : op.substr(op.find('@') + 1);
@@ -132,11 +132,11 @@ void rd::case_expr() {
       const Linear_Expression& X = S[i].X; const Linear_Expression& Y = S[i].Y;
       bool eq = X.space_dimension() == Y.space_dimension() && X.inhomogeneous_term() == Y.inhomogeneous_term();
       for (dimension_type v = 0; eq && v < X.space_dimension(); ++v) if (X.coefficient(Variable(v)) != Y.coefficient(Variable(v))) eq = false;
-      if (!eq) { violation("C16.diff.Linear_Expression." + opb + ":" + (opc.empty() ? std::string("coefficients") : opc), "slot " + std::to_string(i) + " X=" + show(X) + " Y=" + show(Y) + " model=" + show(S[i].M)); return false; }
-      if (!X.is_equal_to(Y) || !Y.is_equal_to(X)) { violation("C16.diff.Linear_Expression." + opb + ":" + (opc.empty() ? std::string("is_equal_to") : opc), std::string("twins with equal coefficients are not is_equal_to; reps ") + repclass(X, Y) + " X=" + show(X)); return false; }
-      if (compare(X, Y) != 0 || compare(Y, X) != 0) { violation("C16.diff.Linear_Expression." + opb + ":" + (opc.empty() ? std::string("compare") : opc), std::string("compare(twin, twin) != 0; reps ") + repclass(X, Y) + " X=" + show(X)); return false; }
-      { std::string a = str(X), b = str(Y); if (a != b) { violation("C16.diff.Linear_Expression." + opb + ":" + (opc.empty() ? std::string("print") : opc), a + " vs " + b); return false; } }
-      { std::string a = dump(X), b = dump(Y); if (a != b) { violation("C16.diff.Linear_Expression." + opb + ":" + (opc.empty() ? std::string("ascii_dump") : opc), a + " vs " + b); return false; } }
+      if (!eq) { viol("C16.diff.Linear_Expression." + opb + ":" + (opc.empty() ? std::string("coefficients") : opc), "slot " + std::to_string(i) + " X=" + show(X) + " Y=" + show(Y) + " model=" + show(S[i].M)); return false; }
+      if (!X.is_equal_to(Y) || !Y.is_equal_to(X)) { viol("C16.diff.Linear_Expression." + opb + ":" + (opc.empty() ? std::string("is_equal_to") : opc), std::string("twins with equal coefficients are not is_equal_to; reps ") + repclass(X, Y) + " X=" + show(X)); return false; }
+      if (compare(X, Y) != 0 || compare(Y, X) != 0) { viol("C16.diff.Linear_Expression." + opb + ":" + (opc.empty() ? std::string("compare") : opc), std::string("compare(twin, twin) != 0; reps ") + repclass(X, Y) + " X=" + show(X)); return false; }
+      { std::string a = str(X), b = str(Y); if (a != b) { viol("C16.diff.Linear_Expression." + opb + ":" + (opc.empty() ? std::string("print") : opc), a + " vs " + b); return false; } }
+      { std::string a = dump(X), b = dump(Y); if (a != b) { viol("C16.diff.Linear_Expression." + opb + ":" + (opc.empty() ? std::string("ascii_dump") : opc), a + " vs " + b); return false; } }
       for (int t = 0; t < 2; ++t) {
         const Linear_Expression& E = t ? Y : X; std::string w = observe(E, S[i].M, det);
         if (w.empty()) continue;
@@ -147,7 +147,7 @@ void rd::case_expr() {
           key = "C16.diff.Linear_Expression." + base + ":" + (cls.empty() ? w + "-" + rep + "-vs-model" : cls);     // the operation produced a wrong value / broke the invariant
         else
           key = "C16.diff.Linear_Expression." + w + ":" + rep + (det.find("[empty@0]") != std::string::npos ? "-empty-range-at-0" : "-vs-model");   // an observer misreports a right value
-        violation(key, det + (t ? " Y=" : " X=") + show(E) + " model=" + show(S[i].M)); return false;
+        viol(key, det + (t ? " Y=" : " X=") + show(E) + " model=" + show(S[i].M)); return false;
       }
     }
     return true;
@@ -241,7 +241,7 @@ void rd::case_expr() {
         else { if (n < MB.dim() && !coin((int) hx::opt().geti("truncds", 8))) { if (argX.representation() == DENSE) rx = DENSE; if (argY.representation() == DENSE) ry = DENSE; }
           op = n < MB.dim() ? "copy_dim_repr_truncate" : "copy_dim_repr"; args << "#" << b << ":" << rs(argX.representation()) << rs(argY.representation()) << "," << n << "," << rs(rx) << rs(ry); tr(pre.str() + op + "(" + args.str() + ")");
           A.X = Linear_Expression(argX, n, rx); A.Y = Linear_Expression(argY, n, ry); M = MB; M.c.resize(n + 1);
-          if (n < MB.dim() && ((argX.representation() == DENSE && rx == SPARSE) || (argY.representation() == DENSE && ry == SPARSE))) op += "@truncating-dense-to-sparse"; }
+          if (n < MB.dim() && ((argX.representation() == DENSE && rx == SPARSE) || (argY.representation() == DENSE && ry == SPARSE))) poison() = "truncating-dense-to-sparse"; }
         break; }
       case 33: { bool ms = coin(); op = ms ? "m_swap" : "swap"; args << "#" << b; tr(pre.str() + op + "(" + args.str() + ")"); if (ms) { A.X.m_swap(B.X); A.Y.m_swap(B.Y); } else { using std::swap; swap(A.X, B.X); swap(A.Y, B.Y); } std::swap(A.M, B.M); break; }
       case 34: { op = "set_representation"; Representation rx = rand_rep(), ry = rand_rep(); args << rs(rx) << rs(ry); tr(pre.str() + op + "(" + args.str() + ")"); A.X.set_representation(rx); A.Y.set_representation(ry); hx::count("expr.repr_flips"); break; }
@@ -275,10 +275,10 @@ void rd::case_expr() {
         const Linear_Expression& src = intoX ? A.X : A.Y; std::string t1 = dump(src); Linear_Expression L(r);
         if (coin()) { L += Variable(rnd(0, 9)); L += 3; }        // loading must overwrite whatever was there
         std::istringstream in(t1); checked(); hx::count("ascii_roundtrips");
-        if (!L.ascii_load(in)) { violation(std::string("C15.row.Linear_Expression.ascii_load_failed:into-") + (r == DENSE ? "dense" : "sparse"), clip(t1)); return; }
-        if (!L.OK()) { violation("C15.row.Linear_Expression.loaded_not_OK", clip(t1)); return; }
-        std::string t2 = dump(L); if (t1 != t2) { violation(std::string("C15.row.Linear_Expression.redump_differs:into-") + (r == DENSE ? "dense" : "sparse"), clip(t1) + " vs " + clip(t2)); return; }
-        if (!same(L, M) || !L.is_equal_to(src)) { violation(std::string("C15.row.Linear_Expression.value_differs:into-") + (r == DENSE ? "dense" : "sparse"), show(L) + " vs " + show(M)); return; }
+        if (!L.ascii_load(in)) { viol(std::string("C15.row.Linear_Expression.ascii_load_failed:into-") + (r == DENSE ? "dense" : "sparse"), clip(t1)); return; }
+        if (!L.OK()) { viol("C15.row.Linear_Expression.loaded_not_OK", clip(t1)); return; }
+        std::string t2 = dump(L); if (t1 != t2) { viol(std::string("C15.row.Linear_Expression.redump_differs:into-") + (r == DENSE ? "dense" : "sparse"), clip(t1) + " vs " + clip(t2)); return; }
+        if (!same(L, M) || !L.is_equal_to(src)) { viol(std::string("C15.row.Linear_Expression.value_differs:into-") + (r == DENSE ? "dense" : "sparse"), show(L) + " vs " + show(M)); return; }
         if (intoX) A.X.m_swap(L); else A.Y.m_swap(L);
         break; }
       case 38: case 39: { // binary observers in all representation combinations, against the model
@@ -295,17 +295,17 @@ void rd::case_expr() {
         if (sp_ok) { for (size_t i = 0; i < M.c.size(); ++i) { sp += M.c[i] * MB.c[i]; if (i) sph += M.c[i] * MB.c[i]; if (i + 1 < M.c.size()) spr += M.c[i] * MB.c[i]; } }
         for (int p = 0; p < 2; ++p) for (int q = 0; q < 2; ++q) {
           const Linear_Expression& x = *xs[p]; const Linear_Expression& y = *ys[q]; std::string rc = repclass(x, y); checked(); hx::count("expr.binary_query_combos");
-          int c = compare(x, y); if (c != mc) { violation("C16.diff.Linear_Expression.compare:" + rc, "compare = " + std::to_string(c) + " expected " + std::to_string(mc) + " x=" + show(x) + " y=" + show(y)); return; }
-          if (x.is_equal_to(y) != meq) { violation("C16.diff.Linear_Expression.is_equal_to:" + rc, "x=" + show(x) + " y=" + show(y)); return; }
+          int c = compare(x, y); if (c != mc) { viol("C16.diff.Linear_Expression.compare:" + rc, "compare = " + std::to_string(c) + " expected " + std::to_string(mc) + " x=" + show(x) + " y=" + show(y)); return; }
+          if (x.is_equal_to(y) != meq) { viol("C16.diff.Linear_Expression.is_equal_to:" + rc, "x=" + show(x) + " y=" + show(y)); return; }
           Expression_Adapter_Transparent<Linear_Expression> ax(x);
-          if (ax.is_equal_to(y, s, t) != req) { violation("C16.diff.Linear_Expression.is_equal_to_range:" + rc, "range [" + std::to_string(s) + "," + std::to_string(t) + ") x=" + show(x) + " y=" + show(y)); return; }
-          if (ax.is_equal_to(y, c1, c2, s, t) != req2) { violation("C16.diff.Linear_Expression.is_equal_to_scaled:" + rc, "c1=" + zs(c1) + " c2=" + zs(c2) + " range [" + std::to_string(s) + "," + std::to_string(t) + ") x=" + show(x) + " y=" + show(y)); return; }
-          { bool h = ax.have_a_common_variable(y, Variable(s1 - 1), Variable(t1 - 1)); if (h != common) { violation("C16.diff.Linear_Expression.have_a_common_variable:" + rc, "range [" + std::to_string(s1) + "," + std::to_string(t1) + ") x=" + show(x) + " y=" + show(y)); return; } }
+          if (ax.is_equal_to(y, s, t) != req) { viol("C16.diff.Linear_Expression.is_equal_to_range:" + rc, "range [" + std::to_string(s) + "," + std::to_string(t) + ") x=" + show(x) + " y=" + show(y)); return; }
+          if (ax.is_equal_to(y, c1, c2, s, t) != req2) { viol("C16.diff.Linear_Expression.is_equal_to_scaled:" + rc, "c1=" + zs(c1) + " c2=" + zs(c2) + " range [" + std::to_string(s) + "," + std::to_string(t) + ") x=" + show(x) + " y=" + show(y)); return; }
+          { bool h = ax.have_a_common_variable(y, Variable(s1 - 1), Variable(t1 - 1)); if (h != common) { viol("C16.diff.Linear_Expression.have_a_common_variable:" + rc, "range [" + std::to_string(s1) + "," + std::to_string(t1) + ") x=" + show(x) + " y=" + show(y)); return; } }
           if (sp_ok) {
-            Z z; Scalar_Products::assign(z, x, y); if (z != sp) { violation("C16.diff.Linear_Expression.scalar_product:" + rc, zs(z) + " expected " + zs(sp) + " x=" + show(x) + " y=" + show(y)); return; }
-            if (Scalar_Products::sign(x, y) != sgn(sp)) { violation("C16.diff.Linear_Expression.scalar_product_sign:" + rc, "x=" + show(x) + " y=" + show(y)); return; }
-            Scalar_Products::homogeneous_assign(z, x, y); if (z != sph) { violation("C16.diff.Linear_Expression.homogeneous_scalar_product:" + rc, zs(z) + " expected " + zs(sph) + " x=" + show(x) + " y=" + show(y)); return; }
-            if (M.dim() >= 1) { Scalar_Products::reduced_assign(z, x, y); if (z != spr) { violation("C16.diff.Linear_Expression.reduced_scalar_product:" + rc, zs(z) + " expected " + zs(spr) + " x=" + show(x) + " y=" + show(y)); return; } }
+            Z z; Scalar_Products::assign(z, x, y); if (z != sp) { viol("C16.diff.Linear_Expression.scalar_product:" + rc, zs(z) + " expected " + zs(sp) + " x=" + show(x) + " y=" + show(y)); return; }
+            if (Scalar_Products::sign(x, y) != sgn(sp)) { viol("C16.diff.Linear_Expression.scalar_product_sign:" + rc, "x=" + show(x) + " y=" + show(y)); return; }
+            Scalar_Products::homogeneous_assign(z, x, y); if (z != sph) { viol("C16.diff.Linear_Expression.homogeneous_scalar_product:" + rc, zs(z) + " expected " + zs(sph) + " x=" + show(x) + " y=" + show(y)); return; }
+            if (M.dim() >= 1) { Scalar_Products::reduced_assign(z, x, y); if (z != spr) { viol("C16.diff.Linear_Expression.reduced_scalar_product:" + rc, zs(z) + " expected " + zs(spr) + " x=" + show(x) + " y=" + show(y)); return; } }
           }
         }
         break; }
@@ -315,7 +315,7 @@ void rd::case_expr() {
         break; }
       }
     } catch (const Logical_Timeout&) { throw; }
-    catch (const std::exception& e) { violation("C16.diff.Linear_Expression." + (op.empty() ? std::string("unknown") : op) + ":unexpected-exception", std::string(typeid(e).name()) + ": " + e.what()); return; }
+    catch (const std::exception& e) { viol("C16.diff.Linear_Expression." + (op.empty() ? std::string("unknown") : op) + ":unexpected-exception", std::string(typeid(e).name()) + ": " + e.what()); return; }
     RD_GUARD_END("Linear_Expression." + op)
     if (op.empty()) continue;
     hx::count("op.expr." + (op.find('@') == std::string::npos ? op : op.substr(0, op.find('@'))));
@@ -361,15 +361,15 @@ void rd::case_alias() {
       case 7: { using std::swap; swap(e, e); break; }
       case 8: e.m_swap(e); break;
       }
-      if (!e.OK()) return 4;
-      return same(e, W) ? 0 : 3;
+      if (!e.OK()) return 44;
+      return same(e, W) ? 0 : 43;
     });
     std::string cls = std::string(r == DENSE ? "dense" : "sparse") + "-receiver";
     if (kind == 4 && (k + k2 == 0 || false)) cls += "";   // c1 + c2 == 0 is still a legal call
     if (R.crashed) violation("C13.row.alias.Linear_Expression." + op + ":" + cls + "-crash", R.headline + " | e=" + show(e));
-    else if (R.code == 3) violation("C13.row.alias.Linear_Expression." + op + ":" + cls + "-wrong-value", "expected " + show(W) + " from e=" + show(e));
-    else if (R.code == 4) violation("C13.row.alias.Linear_Expression." + op + ":" + cls + "-not-OK", "e=" + show(e));
-    else if (R.code == 97) violation("C13.row.alias.Linear_Expression." + op + ":" + cls + "-exception", R.headline);
+    else if (R.code == 43) violation("C13.row.alias.Linear_Expression." + op + ":" + cls + "-wrong-value", "expected " + show(W) + " from e=" + show(e));
+    else if (R.code == 44) violation("C13.row.alias.Linear_Expression." + op + ":" + cls + "-not-OK", "e=" + show(e));
+    else if (R.code == 47) violation("C13.row.alias.Linear_Expression." + op + ":" + cls + "-exception", R.headline);
     else if (R.code != 0) violation("harness.bug.fork", "child exit code " + std::to_string(R.code));
     if (M.nnz() > 0) hx::distinct("alias|" + op + "|" + cls + "|z" + std::to_string(M.nnz() < 3 ? M.nnz() : 3));
     hx::st().case_tainted = false;   // each aliased step is independent (fresh object, own process): go on
